@@ -629,7 +629,7 @@ def gen_valid(rng, op, B=None):
         d = list(dims)
         if ax < len(d) and rng.random() < 0.9:
             d[ax] = 1
-        size = rng.choice([1, 2, 3, 4, 0]) if rng.random() < 0.95 else rng.choice([W - 1, 2 ** 31])
+        size = rng.choice([1, 2, 3, 4, 0])
         return "broadcast_fw %s %d %d" % (rand_t(rng, d, bx).tok(), ax, size)
     if op == "batch_pick_fw":
         k = rng.choice([1, 2, 3, bx])
@@ -837,6 +837,31 @@ def batch_companions(line):
     return B, out
 
 
+def too_big(line, limit=400):
+    """True when executing the line could allocate a large tensor (the model
+    driver evaluates tensors element by element, and the harness must not be
+    asked for gigabytes): every operand and every result must stay small."""
+    w = line.split()
+    op = w[0]
+    for t in w[1:]:
+        if ":" in t:
+            p = t.split(":")
+            if p[0] in ("T", "O", "S") and "/" in p[1]:
+                d, b = p[1].split("/")
+                try:
+                    dims = [int(v) for v in d.split(",")] if d else []
+                    if shape_ok(dims, int(b)) and prod(dims) * int(b) > limit:
+                        return True
+                except ValueError:
+                    return True
+    ns = [int(t) for t in w[1:] if t.isdigit()]
+    if op == "broadcast_fw" and len(ns) >= 2 and 8 < ns[1] < W:
+        return True
+    if op == "identity" and ns and 20 < ns[0] < 65536:
+        return True
+    return False
+
+
 def streams(rng, tier):
     """{'valid': [...], 'malformed': [...], 'exhaustive': [...]} — lines without the device token."""
     quick = tier == "quick"
@@ -845,13 +870,13 @@ def streams(rng, tier):
     for op in ALL_OPS:
         for _ in range(per_op):
             l = gen_valid(rng, op)
-            if l not in seen:
+            if l not in seen and not too_big(l):
                 seen.add(l)
                 valid.append(l)
     mal = []
     for _ in range(500 if quick else 6000):
         l = gen_malformed(rng)
-        if l not in seen:
+        if l not in seen and not too_big(l):
             seen.add(l)
             mal.append(l)
     # defect #4 (pinned tree): the 32-bit sums of the two guards
@@ -955,8 +980,8 @@ def run_family(chk, prop):
     flagged = set()
     for line in lines:
         impl, model = outs.get(line, ("skipped", ""))
-        if impl == "skipped":
-            continue
+        if impl == "skipped" or (impl == "bad-op" and model == "bad-op"):
+            continue   # not a call of the library (both parsers reject the line)
         k = kind[line]
         e = expect(line)
         crash = impl.startswith("crash")
